@@ -99,7 +99,7 @@ def _default_step_ok(cls, n):
 def cases(tier, seed):
     ns = NQ if tier == "quick" else NT
     out = []
-    nrand = 1 if tier == "quick" else 2
+    nrand = 1 if tier == "quick" else 3
     for n in [1] + ns:
         for c in GAUSS:
             if not _admissible(c, n):
